@@ -532,6 +532,19 @@ func (e *SpecEnv) binary(x *ast.BinaryExpr) *Val {
 		return &Val{T: boolT, S: s}
 	case token.LSS, token.LEQ, token.GTR, token.GEQ:
 		op := map[token.Token]string{token.LSS: "<", token.LEQ: "<=", token.GTR: ">", token.GEQ: ">="}[x.Op]
+		if e.sortOfVal(l) == "Float" && e.sortOfVal(r) == "Float" {
+			// floats are uninterpreted: the comparison is the same symbol the code's comparison is translated to
+			switch x.Op {
+			case token.LSS:
+				return &Val{T: boolT, S: app("f_lt", ls, rs)}
+			case token.LEQ:
+				return &Val{T: boolT, S: app("f_le", ls, rs)}
+			case token.GTR:
+				return &Val{T: boolT, S: app("f_lt", rs, ls)}
+			default:
+				return &Val{T: boolT, S: app("f_le", rs, ls)}
+			}
+		}
 		return &Val{T: boolT, S: "(" + op + " " + ls + " " + rs + ")"}
 	case token.ADD:
 		return &Val{T: mathInt, S: "(+ " + ls + " " + rs + ")", Math: true}
@@ -638,8 +651,24 @@ func (e *SpecEnv) call(x *ast.CallExpr) *Val {
 		if e.prevVal != nil && len(x.Args) == 1 {
 			// evaluate the argument with loop variables bound to their start-of-iteration values
 			n := *e
-			n.resolve = e.prevVal
+			cur := e.resolve
+			n.resolve = func(name string) *Val {
+				if v := e.prevVal(name); v != nil {
+					return v
+				}
+				// not a loop variable: a name defined inside the body keeps the value it has in this iteration
+				if cur != nil {
+					return cur(name)
+				}
+				return nil
+			}
+			// quantifier-bound variables stay in scope inside prev()
 			n.vars = map[string]*Val{}
+			for k, v := range e.vars {
+				if e.bound["q!"+k] != "" {
+					n.vars[k] = v
+				}
+			}
 			n.forced = nil
 			if e.prevState != nil {
 				n.cur = e.prevState
